@@ -12,6 +12,7 @@ CONSTANTS
   Inter = {TRUE}
   Multis = {FALSE, TRUE}
   Muts = {0}
+  RouteIds = {1}
   Rounds = 1
 INVARIANT TypeOK
 INVARIANT H_sane
